@@ -34,9 +34,9 @@ F1e19 == <<17377, 22756, 24721, 15616>>  FMinus1e19 == <<50145, 22756, 24721, 15
 FMax == <<32751, 65535, 65535, 65535>>   FMinusMax == <<65519, 65535, 65535, 65535>>
 FInf == <<32752, 0, 0, 0>>            FMinusInf == <<65520, 0, 0, 0>>
 FNaN == <<32760, 0, 0, 0>>            FMinusNaN == <<65528, 0, 0, 0>>
-FloatsQuick == {FPosZero, FNegZero, FMinSub, FOneP, FMinusOne, FOneHalf, FTenth, FTwoHalf, FMinusTwoHalf, F2p53, F2p63,
+FloatsQuick == {FPosZero, FNegZero, FMinSub, FOneP, FMinusOne, FOneHalf, FHalf, FTenth, FTwoHalf, FMinusTwoHalf, F2p53, F2p63,
                 FMinus2p63, F1e19, FMax, FInf, FMinusInf, FNaN}
-FloatsFull == FloatsQuick \cup {FNegMinSub, FMinNorm, FMinusOneHalf, FHalf, FTwo, FThree, F2p53p2, FBelow2p63, FMinus1e19,
+FloatsFull == FloatsQuick \cup {FNegMinSub, FMinNorm, FMinusOneHalf, FTwo, FThree, F2p53p2, FBelow2p63, FMinus1e19,
                                 FMinusMax, FMinusNaN}
 
 Sa == <<97>>   Sb == <<98>>   Sab == <<97, 98>>   SAuml == <<228>>   SZ == <<90>>   SEmoji == <<128512>>
@@ -54,7 +54,7 @@ Tuples == IF PoolName = "quick" THEN TuplesQuick ELSE TuplesFull
 
 \* smaller pools for argument pairs and triples of the builtin model
 PairInts == {MinInt, MaxInt, Zero, FromInt(1), FromInt(-1), FromInt(2), FromInt(3), FromInt(63), FromInt(64), P(Pow2I(53), 1)}
-PairFloats == {FNegZero, FOneP, FMinusTwoHalf, FTenth, F2p53, F1e19, FInf, FNaN}
+PairFloats == {FNegZero, FOneP, FMinusTwoHalf, FHalf, FTenth, F2p53, F1e19, FInf, FMinusInf, FNaN}
 PairPool == {VInt(i) : i \in (IF PoolName = "quick" THEN PairInts ELSE Ints)}
             \cup {VFloat(f) : f \in (IF PoolName = "quick" THEN PairFloats ELSE Floats)}
             \cup {VStr(s) : s \in (IF PoolName = "quick" THEN {<<>>, Sab, SMixed} ELSE Strings)}
